@@ -2535,7 +2535,7 @@ class Context:
             combined_chunk_numbers = list(itertools.chain.from_iterable(chunk_number_group))
             if len(combined_chunk_numbers) != len(set(combined_chunk_numbers)):
                 raise ValueError(f"Duplicate chunk numbers found in {chunk_number_group}")
-            if min(combined_chunk_numbers) == 0 and max(combined_chunk_numbers) == len(chunks) - 1:
+            if sorted(combined_chunk_numbers) == list(range(len(chunks))):
                 # If the chunks are all the chunks of the dependency, we can drop the chunk_number
                 _chunk_number = None
             else:
